@@ -1,10 +1,12 @@
 import DaeVerif.C03.HookProofs
 /-!
-# C03 — property theorems
+# C03 — property theorems, part 1: one frame
 
-Only statements a reader should audit live here (namespace `DaeVerif.C03.Props`); helper lemmas are
-in `ParseProofs`, `Proofs`, `VerdictProofs`, `SourceProofs`, `HookProofs`.  Every theorem is
-followed by a non-vacuity `example`.
+Only statements a reader should audit live here and in `Props.lean` (both in namespace
+`DaeVerif.C03.Props`; this file holds the theorems about a single frame, `Props.lean` the theorems
+about whole runs, which are proved from these); helper lemmas are in `ParseProofs`, `Proofs`,
+`VerdictProofs`, `SourceProofs`, `HookProofs`, `RunProofs`.  Non-vacuity `example`s for all of them
+are at the end of `Props.lean`.
 
 Vocabulary (`Spec.lean`): `lanFate w s p d` / `wanFate w s p d` — the fate (`pass mark | drop |
 toDae`) the property text assigns to decision `d = (outbound, mark, must)`; `o.realises w s ingress
@@ -190,8 +192,8 @@ whatever rules or learned domains have become meanwhile — and the entry keeps 
 theorem lan_tracked_tcp_follows_cache (rt rt' : RouteIn → Int) (w : World) (s : Skb) (l2 : Bool) (p : Pkt)
     (cs : ConnState) (hp : parsePacket s.raw l2 = .pkt p) (ht : p.l4proto = IPPROTO_TCP)
     (hns : (p.syn && !p.ack) = false) (hl : tcpLive w p.tuples.five false = some cs)
-    (hr : cs.hasRouting ≠ 0) (hrt : rtrackRoom w s p) :
-    (lanIngress rt w s l2).2.realises w s true (lanFate w s p cs.decision) ∧
+    (hr : cs.hasRouting ≠ 0) :
+    (rtrackRoom w s p → (lanIngress rt w s l2).2.realises w s true (lanFate w s p cs.decision)) ∧
     lanIngress rt w s l2 = lanIngress rt' w s l2 ∧
     ∃ cs', alookup (lanIngress rt w s l2).1.conn p.tuples.five = some cs' ∧ cs'.decision = cs.decision ∧
       cs'.hasRouting = cs.hasRouting ∧ cs'.wanDir = cs.wanDir := by
@@ -204,7 +206,8 @@ theorem lan_tracked_tcp_follows_cache (rt rt' : RouteIn → Int) (w : World) (s 
   have hdec : (touchTcp cs w.now (p.fin || p.rst) {}).decision = cs.decision := by rw [hte]; rfl
   have hr' : (touchTcp cs w.now (p.fin || p.rst) {}).hasRouting ≠ 0 := by rw [hte]; exact hr
   refine ⟨?_, rfl, ?_⟩
-  · rw [← hdec]
+  · intro hrt
+    rw [← hdec]
     exact lanTcpEstablished_tracked_out w s l2 p _ hm2 hr' hrt
   · refine ⟨touchTcp cs w.now (p.fin || p.rst) {}, ?_, hdec, by rw [hte], by rw [hte]⟩
     unfold lanTcpEstablished
@@ -217,8 +220,8 @@ from the WAN side). -/
 theorem lan_tracked_udp_follows_cache (rt rt' : RouteIn → Int) (w : World) (s : Skb) (l2 : Bool) (p : Pkt)
     (cs : ConnState) (hp : parsePacket s.raw l2 = .pkt p) (ht : p.l4proto = IPPROTO_UDP)
     (hsl : shortLivedUdp p.tuples.five = false) (hl : udpLive w p.tuples.five = some cs)
-    (hw : cs.wanDir = false) (hr : cs.hasRouting ≠ 0) (hrt : rtrackRoom w s p) :
-    (lanIngress rt w s l2).2.realises w s true (lanFate w s p cs.decision) ∧
+    (hw : cs.wanDir = false) (hr : cs.hasRouting ≠ 0) :
+    (rtrackRoom w s p → (lanIngress rt w s l2).2.realises w s true (lanFate w s p cs.decision)) ∧
     lanIngress rt w s l2 = lanIngress rt' w s l2 ∧
     ∃ cs', alookup (lanIngress rt w s l2).1.conn p.tuples.five = some cs' ∧ cs'.decision = cs.decision ∧
       cs'.hasRouting = cs.hasRouting ∧ cs'.wanDir = cs.wanDir := by
@@ -233,7 +236,8 @@ theorem lan_tracked_udp_follows_cache (rt rt' : RouteIn → Int) (w : World) (s 
   have hr' : (touchUdp cs w.now { dscp := p.tuples.dscp }).hasRouting ≠ 0 := by rw [hte]; exact hr
   have hw' : (touchUdp cs w.now { dscp := p.tuples.dscp }).wanDir = false := by rw [hte]; exact hw
   refine ⟨?_, lanUdp_tracked_rt rt rt' w s l2 p _ hm2 hw' hr', ?_⟩
-  · rw [← hdec]
+  · intro hrt
+    rw [← hdec]
     exact lanUdp_tracked_out rt w s l2 p _ hm2 hw' hr' hrt
   · have hlk : alookup (markUdpSeen w p.tuples.five false { dscp := p.tuples.dscp }).1.conn p.tuples.five =
         some (touchUdp cs w.now { dscp := p.tuples.dscp }) := by
@@ -328,5 +332,211 @@ theorem wan_new_tcp_connection (rt : RouteIn → Int) (w : World) (s : Skb) (l2 
         (by simp [newConnState]) (Or.inl (by rw [parsePacket_l4 hp, ht]))]
     simp only [newConnState, Option.getD_some]
     cases (pidIsControlPlane w s).pp <;> rfl
+
+/-- **New UDP flow of a local process** (not dae, not port 53): no live entry, or a live entry that
+holds no decision yet.  Routed by the current rule program; fate as for TCP.  The decision — plain
+direct included — is cached in the flow's entry, from which `RetrieveRoutingResult` returns exactly
+(outbound, mark, must, DSCP, source MAC) and, when the sender's socket cookie is known, its process
+name and pid. -/
+theorem wan_new_udp_flow (rt : RouteIn → Int) (w : World) (s : Skb) (l2 : Bool) (p : Pkt)
+    (hi : s.ingressIf = 0) (hp : parsePacket s.raw l2 = .pkt p) (ht : p.l4proto = IPPROTO_UDP)
+    (hsl : shortLivedUdp p.tuples.five = false) (hcp : (pidIsControlPlane w s).isCp = false)
+    (hnew : ∀ cs, udpLive w p.tuples.five = some cs → cs.hasRouting = 0 ∧ cs.wanDir = false)
+    (hc : udpLive w p.tuples.five = none → connRoom w p.tuples.five)
+    (hr : 0 ≤ rt (wanRouteIn s p false (ppName (pidIsControlPlane w s).pp) p.ethSrc)) (hrt : rtrackRoom w s p) :
+    let d := unpackRoute (rt (wanRouteIn s p false (ppName (pidIsControlPlane w s).pp) p.ethSrc))
+    (wanEgress rt w s l2).2.realises w s false (wanFate w s p d) ∧
+    ∀ t, ∃ r, retrieve (wanEgress rt w s l2).1 p.tuples.five t = some r ∧
+      (r.outbound, r.mark, r.must, r.dscp, r.mac) = (d.ob, d.mark, d.must, p.tuples.dscp, p.ethSrc) ∧
+      ∀ x, (pidIsControlPlane w s).pp = some x → r.pname = x.pname ∧ r.pid = x.pid := by
+  intro d
+  rw [wanEgress_udp rt w s l2 p hi hp ht]
+  unfold wanEgressUdp
+  simp only [hcp, Bool.false_eq_true, if_false, hsl, Bool.not_false, if_true]
+  have hrest0 := pidIsControlPlane_rest w s
+  have hconn0 := pidIsControlPlane_conn w s
+  have hrest1 := markUdpSeen_rest (pidIsControlPlane w s).w p.tuples.five false {}
+  have hrest : (markUdpSeen (pidIsControlPlane w s).w p.tuples.five false {}).1.rest = w.rest := hrest1.trans hrest0
+  have hst : ∃ cs, (markUdpSeen (pidIsControlPlane w s).w p.tuples.five false {}).2 = some cs ∧
+      cs.wanDir = false ∧ cs.hasRouting = 0 ∧
+      alookup (markUdpSeen (pidIsControlPlane w s).w p.tuples.five false {}).1.conn p.tuples.five = some cs := by
+    cases hl : udpLive (pidIsControlPlane w s).w p.tuples.five with
+    | none =>
+      have hl' : udpLive w p.tuples.five = none := by rw [← udpLive_congr hconn0 hrest0]; exact hl
+      rw [markUdpSeen_new_room _ _ false _ hl ((connRoom_congr hconn0 hrest0 _).mpr (hc hl'))]
+      refine ⟨_, rfl, ?_, ?_, ?_⟩
+      · rfl
+      · rfl
+      · exact alookup_erase_append_self _ _ _
+    | some cs =>
+      have hl' : udpLive w p.tuples.five = some cs := by rw [← udpLive_congr hconn0 hrest0]; exact hl
+      rw [markUdpSeen_live _ _ false _ cs hl]
+      obtain ⟨t, ht'⟩ := touchUdp_eq cs (pidIsControlPlane w s).w.now {} rfl
+      refine ⟨_, rfl, ?_, ?_, alookup_areplace_self _ _ _ _ (udpLive_lookup _ _ cs hl)⟩
+      · rw [ht']; exact (hnew cs hl').2
+      · rw [ht']; exact (hnew cs hl').1
+  obtain ⟨cs, hm, hw, hr0, hlk⟩ := hst
+  rw [hm]
+  constructor
+  · rw [← wanFate_congr hrest, ← realises_congr hrest]
+    exact wanUdpRouted_untracked_fate rt _ s l2 p _ cs ht hsl hw hr0 hr ((rtrackRoom_congr hrest s p).mpr hrt)
+  · intro t
+    obtain ⟨cs', h1, h2, h3, h4, h5, h6, h7⟩ := wanUdpRouted_untracked_conn rt _ s l2 p (pidIsControlPlane w s).pp cs hw hr0 hr
+      (dport_ne_53_of_not_shortLived _ (by rw [parsePacket_l4 hp, ht]) hsl) hlk
+    refine ⟨_, retrieve_of_conn _ _ t cs' h1 (by rw [h3]; decide) (Or.inr (by rw [parsePacket_l4 hp, ht])), ?_, ?_⟩
+    · have : cs'.outbound = d.ob ∧ cs'.mark = d.mark ∧ cs'.must = d.must := by
+        have := congrArg Dec.ob h2; have := congrArg Dec.mark h2; have := congrArg Dec.must h2
+        exact ⟨by assumption, by assumption, by assumption⟩
+      simp only [this.1, this.2.1, this.2.2, h4, h5]
+    · intro x hx
+      simp only [h6, h7, hx, ppNameOr, ppPidOr, and_self]
+
+/-- **DNS datagram of a local process** (UDP, port 53; not dae): stateless — routed on every
+datagram, no conn-state entry created or consulted, never dropped for a dead group.  When handed
+over, the (mandatory) hand-off record carries (outbound, mark, must, DSCP, source MAC, process name,
+pid) and `RetrieveRoutingResult` returns it during the next ten seconds. -/
+theorem wan_dns_datagram (rt : RouteIn → Int) (w : World) (s : Skb) (l2 : Bool) (p : Pkt)
+    (hi : s.ingressIf = 0) (hp : parsePacket s.raw l2 = .pkt p) (ht : p.l4proto = IPPROTO_UDP)
+    (hsl : shortLivedUdp p.tuples.five = true) (hcp : (pidIsControlPlane w s).isCp = false)
+    (hr : 0 ≤ rt (wanRouteIn s p false (ppName (pidIsControlPlane w s).pp) p.ethSrc)) (hrt : rtrackRoom w s p)
+    (hh : handoffRoom w p.tuples.five)
+    (hnc : ∀ cs, alookup w.conn p.tuples.five = some cs → cs.hasRouting = 0) (hnow : 0 < w.now) :
+    let d := unpackRoute (rt (wanRouteIn s p false (ppName (pidIsControlPlane w s).pp) p.ethSrc))
+    (wanEgress rt w s l2).2.realises w s false (wanFate w s p d) ∧
+    (wanEgress rt w s l2).1.conn = w.conn ∧
+    (wanFate w s p d = .toDae → ∀ age, age ≤ HANDOFF_TIMEOUT →
+      retrieve (wanEgress rt w s l2).1 p.tuples.five (w.now + age) =
+        some ⟨d.mark, d.must, p.ethSrc, d.ob, ppName (pidIsControlPlane w s).pp, ppPid (pidIsControlPlane w s).pp,
+              p.tuples.dscp⟩) := by
+  intro d
+  rw [wanEgress_udp rt w s l2 p hi hp ht]
+  unfold wanEgressUdp
+  simp only [hcp, Bool.false_eq_true, if_false, hsl, Bool.not_true]
+  have hrest := pidIsControlPlane_rest w s
+  have hconn := pidIsControlPlane_conn w s
+  obtain ⟨h1, h2, h3⟩ := wanUdpRouted_none_fate rt (pidIsControlPlane w s).w s l2 p (pidIsControlPlane w s).pp ht hr
+    ((rtrackRoom_congr hrest s p).mpr hrt) ((handoffRoom_congr hrest _).mpr hh)
+  rw [wanFate_congr hrest, realises_congr hrest] at h1
+  rw [wanFate_congr hrest] at h3
+  refine ⟨h1, h2.trans hconn, ?_⟩
+  intro hf age hage
+  have hho := h3 hf
+  rw [rest_now hrest] at hho
+  exact retrieve_of_handoff _ _ _ _ (by rw [h2, hconn]; exact hnc) hho (handoff_fresh w.now age hnow hage)
+
+/-! ## WAN egress: later packets of a tracked flow -/
+
+/-- **A tracked TCP flow of a local process follows its cached decision**: the rule program is not
+consulted, the fate is that of the cached decision, the entry keeps it. -/
+theorem wan_tracked_tcp_follows_cache (rt rt' : RouteIn → Int) (w : World) (s : Skb) (l2 : Bool) (p : Pkt)
+    (cs : ConnState) (hi : s.ingressIf = 0) (hp : parsePacket s.raw l2 = .pkt p) (ht : p.l4proto = IPPROTO_TCP)
+    (hns : (p.syn && !p.ack) = false) (hl : tcpLive w p.tuples.five false = some cs)
+    (hr : cs.hasRouting ≠ 0) :
+    (rtrackRoom w s p → (wanEgress rt w s l2).2.realises w s false (wanFate w s p cs.decision)) ∧
+    wanEgress rt w s l2 = wanEgress rt' w s l2 ∧
+    ∃ cs', alookup (wanEgress rt w s l2).1.conn p.tuples.five = some cs' ∧ cs'.decision = cs.decision ∧
+      cs'.hasRouting = cs.hasRouting ∧ cs'.wanDir = cs.wanDir := by
+  rw [wanEgress_tcp rt w s l2 p hi hp ht, wanEgress_tcp rt' w s l2 p hi hp ht]
+  unfold wanEgressTcp
+  simp only [hns, Bool.false_eq_true, if_false]
+  obtain ⟨t, st, hte⟩ := touchTcp_eq cs w.now (p.fin || p.rst)
+  have hm := markTcpSeen_live w p.tuples.five false (p.fin || p.rst) {} cs hl
+  have hm2 : (markTcpSeen w p.tuples.five false false (p.fin || p.rst) {}).2 = some (touchTcp cs w.now (p.fin || p.rst) {}) := by
+    rw [hm]
+  have hdec : (touchTcp cs w.now (p.fin || p.rst) {}).decision = cs.decision := by rw [hte]; rfl
+  have hr' : (touchTcp cs w.now (p.fin || p.rst) {}).hasRouting ≠ 0 := by rw [hte]; exact hr
+  refine ⟨?_, trivial, ?_⟩
+  · intro hrt
+    rw [← hdec]
+    exact wanTcpEstablished_tracked_out w s l2 p _ ht hm2 hr' hrt
+  · refine ⟨touchTcp cs w.now (p.fin || p.rst) {}, ?_, hdec, by rw [hte], by rw [hte]⟩
+    unfold wanTcpEstablished
+    simp only [hm2, hr', if_false, wanVerdict_conn]
+    rw [hm]
+    exact alookup_areplace_self _ _ _ _ (tcpLive_lookup w _ false cs hl)
+
+/-- **A tracked UDP flow of a local process follows its cached decision** (not dae, not port 53, not
+a flow opened from the WAN side). -/
+theorem wan_tracked_udp_follows_cache (rt rt' : RouteIn → Int) (w : World) (s : Skb) (l2 : Bool) (p : Pkt)
+    (cs : ConnState) (hi : s.ingressIf = 0) (hp : parsePacket s.raw l2 = .pkt p) (ht : p.l4proto = IPPROTO_UDP)
+    (hsl : shortLivedUdp p.tuples.five = false) (hcp : (pidIsControlPlane w s).isCp = false)
+    (hl : udpLive w p.tuples.five = some cs) (hw : cs.wanDir = false) (hr : cs.hasRouting ≠ 0) :
+    (rtrackRoom w s p → (wanEgress rt w s l2).2.realises w s false (wanFate w s p cs.decision)) ∧
+    wanEgress rt w s l2 = wanEgress rt' w s l2 ∧
+    ∃ cs', alookup (wanEgress rt w s l2).1.conn p.tuples.five = some cs' ∧ cs'.decision = cs.decision ∧
+      cs'.hasRouting ≠ 0 ∧ cs'.wanDir = cs.wanDir := by
+  rw [wanEgress_udp rt w s l2 p hi hp ht, wanEgress_udp rt' w s l2 p hi hp ht]
+  unfold wanEgressUdp
+  simp only [hcp, Bool.false_eq_true, if_false, hsl, Bool.not_false, if_true]
+  have hrest0 := pidIsControlPlane_rest w s
+  have hconn0 := pidIsControlPlane_conn w s
+  have hrest1 := markUdpSeen_rest (pidIsControlPlane w s).w p.tuples.five false {}
+  have hrest : (markUdpSeen (pidIsControlPlane w s).w p.tuples.five false {}).1.rest = w.rest := hrest1.trans hrest0
+  have hl' : udpLive (pidIsControlPlane w s).w p.tuples.five = some cs := by rw [udpLive_congr hconn0 hrest0]; exact hl
+  obtain ⟨t, hte⟩ := touchUdp_eq cs (pidIsControlPlane w s).w.now {} rfl
+  have hm := markUdpSeen_live (pidIsControlPlane w s).w p.tuples.five false {} cs hl'
+  have hdec : (touchUdp cs (pidIsControlPlane w s).w.now {}).decision = cs.decision := by rw [hte]; rfl
+  have hr' : (touchUdp cs (pidIsControlPlane w s).w.now {}).hasRouting ≠ 0 := by rw [hte]; exact hr
+  have hw' : (touchUdp cs (pidIsControlPlane w s).w.now {}).wanDir = false := by rw [hte]; exact hw
+  rw [hm]
+  refine ⟨?_, wanUdpRouted_tracked_rt rt rt' _ s l2 p _ _ hw' hr', ?_⟩
+  · have hrest2 : ({ (pidIsControlPlane w s).w with
+        conn := areplace (pidIsControlPlane w s).w.conn p.tuples.five (touchUdp cs (pidIsControlPlane w s).w.now {}) }
+        : World).rest = w.rest := hrest0
+    intro hrt
+    rw [← wanFate_congr hrest2, ← realises_congr hrest2, ← hdec]
+    exact wanUdpRouted_tracked_fate rt _ s l2 p (pidIsControlPlane w s).pp _ ht hsl hw' hr'
+      ((rtrackRoom_congr hrest2 s p).mpr hrt)
+  · obtain ⟨cs', h1, h2, h3, h4⟩ := wanUdpRouted_tracked_conn rt ({ (pidIsControlPlane w s).w with
+        conn := areplace (pidIsControlPlane w s).w.conn p.tuples.five (touchUdp cs (pidIsControlPlane w s).w.now {}) })
+      s l2 p (pidIsControlPlane w s).pp _ hw' hr'
+      (dport_ne_53_of_not_shortLived _ (by rw [parsePacket_l4 hp, ht]) hsl)
+      (alookup_areplace_self _ _ _ _ (udpLive_lookup _ _ cs hl'))
+    exact ⟨cs', h1, by rw [h2, hdec], by rw [h3]; decide, by rw [h4, hte]⟩
+
+/-- **Established TCP without a cached decision passes untouched** (WAN side) — whoever sent it:
+connections routed plain direct, dae's own connections, replies of connections opened from the WAN
+side. -/
+theorem wan_untracked_tcp_passes (rt : RouteIn → Int) (w : World) (s : Skb) (l2 : Bool) (p : Pkt)
+    (hi : s.ingressIf = 0) (hp : parsePacket s.raw l2 = .pkt p) (ht : p.l4proto = IPPROTO_TCP)
+    (hns : (p.syn && !p.ack) = false)
+    (hl : ∀ cs, tcpLive w p.tuples.five false = some cs → cs.hasRouting = 0) :
+    (wanEgress rt w s l2).2 = outOk s s.mark := by
+  rw [wanEgress_tcp rt w s l2 p hi hp ht]
+  unfold wanEgressTcp
+  simp only [hns, Bool.false_eq_true, if_false]
+  apply wanTcpEstablished_untracked
+  intro cs' hm
+  cases hlv : tcpLive w p.tuples.five false with
+  | none => rw [markTcpSeen_dead w _ false _ {} hlv] at hm; simp at hm
+  | some cs =>
+    rw [markTcpSeen_live w _ false _ {} cs hlv] at hm
+    injection hm with hm
+    obtain ⟨t, st, hte⟩ := touchTcp_eq cs w.now (p.fin || p.rst)
+    rw [← hm, hte]; exact hl cs hlv
+
+/-! ## Packets sent by dae itself -/
+
+/-- **dae's datagrams are never captured**: a UDP frame whose socket cookie maps to the control
+plane's pid, or — when the cookie is unknown — whose mark is dae's socket mark or carries bit 0x100,
+passes untouched, and no conn-state entry is created or changed. -/
+theorem dae_udp_never_captured (rt : RouteIn → Int) (w : World) (s : Skb) (l2 : Bool) (p : Pkt)
+    (hi : s.ingressIf = 0) (hp : parsePacket s.raw l2 = .pkt p) (ht : p.l4proto = IPPROTO_UDP)
+    (hcp : (pidIsControlPlane w s).isCp = true) :
+    (wanEgress rt w s l2).2 = outOk s s.mark ∧ (wanEgress rt w s l2).1.conn = w.conn := by
+  rw [wanEgress_udp rt w s l2 p hi hp ht]
+  unfold wanEgressUdp
+  simp only [hcp, if_true, pidIsControlPlane_conn, and_self]
+
+/-- **dae's new TCP connection is never captured**, and it starts clean: the SYN passes untouched
+and whatever entry an earlier flow left under the same 5-tuple is removed, so that dae's later
+packets (which are no longer recognisable by cookie) cannot inherit a cached decision. -/
+theorem dae_tcp_syn_passes_and_clears (rt : RouteIn → Int) (w : World) (s : Skb) (l2 : Bool) (p : Pkt)
+    (hi : s.ingressIf = 0) (hp : parsePacket s.raw l2 = .pkt p) (ht : p.l4proto = IPPROTO_TCP)
+    (hs : p.syn = true) (ha : p.ack = false) (hcp : (pidIsControlPlane w s).isCp = true) :
+    (wanEgress rt w s l2).2 = outOk s s.mark ∧ alookup (wanEgress rt w s l2).1.conn p.tuples.five = none := by
+  rw [wanEgress_tcp rt w s l2 p hi hp ht]
+  unfold wanEgressTcp wanTcpSyn
+  simp only [hs, ha, Bool.not_false, Bool.and_self, if_true, hcp, alookup_aerase_self, and_self]
 
 end DaeVerif.C03.Props
